@@ -1,51 +1,9 @@
 (* Pins between the tables regenerated from the sources (GeneratedTables.v, Generated.v) and the
-   hand-written parts of the lexer model: if a token or regular expression of src/lexer/token.rs
-   changes, these stop compiling and the lexer model has to be revisited. *)
+   hand-written tables and functions of the model (operators, functions, width mask, verdict); the lexer's
+   tables are in TablesProofLex.v. *)
 From DTR Require Import Prelude I64 Ast Generated GeneratedTables FramedMap Lexer Parser Eval.
 From Coq Require Import String Ascii.
 Local Open Scope string_scope.
-
-(* the regular expressions the hand-written scanner of Lexer.v was written for *)
-Lemma regexes_pinned : gen_regexes =
-  [ ("Ident", "[A-Za-z_]([A-Za-z]|_|\d)*"); ("DecInt", "[1-9][0-9]*"); ("HexInt", "0[xX][0-9a-fA-F]+");
-    ("BinInt", "0[bB][01]+"); ("OctInt", "0[0-7]*"); ("WS", "[ \t\r\f]+"); ("Comment", "#[^\n]*") ].
-Proof. reflexivity. Qed.
-
-(* ... and the header scanner (lex_header): names are maximal runs of anything but space, TAB, CR, FF, LF *)
-Lemma header_regexes_pinned :
-  gen_header_regexes = [ ("SignalName", "[^ \t\r\f\n]+"); ("WS", "[ \t\r\f]+") ] /\
-  gen_header_tokens = [ ("Eol", "\n") ].
-Proof. split; reflexivity. Qed.
-
-(* every punctuation token declared in the source is what the scanner produces for that text ... *)
-Lemma punct_tokens_lexed : forallb (fun p =>
-    match lex_one ((s2n (fst p) ++ [32%N])%list) with
-    | Some (Some k, w, r) => tk_beq k (snd p) && name_eqb w (s2n (fst p)) && name_eqb r [32%N]
-    | _ => false
-    end) gen_punct = true.
-Proof. vm_compute. reflexivity. Qed.
-
-(* ... and the scanner knows no other punctuation *)
-Lemma punct_tokens_complete : forall c d k, (punct2 c d = Some k \/ punct1 c = Some k) ->
-  existsb (fun p => tk_beq (snd p) k) gen_punct = true.
-Proof.
-  intros c d k [H|H].
-  - unfold punct2 in H. repeat match type of H with (if ?b then _ else _) = _ => destruct b end;
-      inversion H; subst; reflexivity.
-  - unfold punct1 in H. repeat match type of H with (if ?b then _ else _) = _ => destruct b end;
-      inversion H; subst; reflexivity.
-Qed.
-
-(* every keyword declared in the source lexes as that keyword, and only identifiers spelled like one do *)
-Lemma keywords_lexed : forallb (fun p =>
-    match lex_one ((fst p ++ [32%N])%list) with
-    | Some (Some k, w, r) => tk_beq k (snd p) && name_eqb w (fst p)
-    | _ => false
-    end) gen_keywords = true.
-Proof. vm_compute. reflexivity. Qed.
-
-Lemma keyword_count : List.length gen_keywords = 13%nat /\ List.length gen_punct = 23%nat /\ List.length gen_func_table = 3%nat.
-Proof. repeat split. Qed.
 
 (* ---- the hand-written tables of the model ARE the ones of the source (regenerated on every run) *)
 Lemma precedence_pinned : forall op, precedence op = gen_precedence op.
@@ -58,7 +16,7 @@ Lemma unop_of_token_pinned : forall k, unop_of_token k = gen_unop_of_token k.
 Proof. destruct k; reflexivity. Qed.
 Lemma func_table_pinned : func_table = gen_func_table.
 Proof. reflexivity. Qed.
-Lemma keywords_pinned : keywords = gen_keywords.
+Lemma func_table_count : List.length gen_func_table = 3%nat.
 Proof. reflexivity. Qed.
 
 (* ---- the operator arms, the width mask and the verdict function of the model ARE those of the
